@@ -15,6 +15,12 @@ package main
 // deadline ends the search, it never decides the verdict), so a run on a correct tree cannot fail.
 // It finds lost updates on the per-value cell that need two accesses of different goroutines to
 // interleave where the instrumented code has no yield point.
+//
+// Two kinds of rounds. Steady rounds: the goroutines loop over a few values that stay cached.
+// First-access rounds (Burst > 0): every round takes FRESH values that the rule has never seen (ints
+// counting up from FreshBase, the rule's parameter capacity is far above their number), all goroutines
+// are released together on the same fresh value, hold their entry for a moment and exit; then the
+// round's cells are read. This is where the creation of a cell races with its first increments.
 
 import (
 	"fmt"
@@ -42,6 +48,9 @@ type parCase struct {
 	Iters      int    `json:"entries_per_goroutine_and_round"`
 	Rounds     int    `json:"rounds"`
 	BudgetMs   int    `json:"stop_early_after_ms"`
+	Burst      int    `json:"first_access_rounds"` // > 0: this many rounds on fresh values instead of the steady rounds
+	FreshPer   int    `json:"fresh_values_per_round"`
+	FreshBase  int    `json:"first_fresh_value"`
 }
 
 func genPar(r *rng.R, i int) parCase {
@@ -51,7 +60,114 @@ func genPar(r *rng.R, i int) parCase {
 	if i%3 == 2 {
 		pc.Key = 1
 	}
+	if i%2 == 1 { // first-access rounds
+		pc.Kind = "real-thread-first-access-of-fresh-values"
+		pc.Burst, pc.FreshPer, pc.FreshBase = 4000, 1+r.Intn(2), 1000000*(i+1)
+		pc.Goroutines = 16 + 8*r.Intn(3)
+		pc.Thr = int64(pc.Goroutines) / r.PickI(1, 2)
+		pc.Values, pc.Iters, pc.Rounds = nil, 0, 0
+	}
 	return pc
+}
+
+func freshOpts(pc parCase, v int) []sentinel.EntryOption {
+	if pc.Key != 0 {
+		return []sentinel.EntryOption{sentinel.WithAttachments(map[interface{}]interface{}{kit.KeyStrings[pc.Key-1]: v})}
+	}
+	return []sentinel.EntryOption{sentinel.WithArgs(v)}
+}
+
+// runBurst: the first-access rounds of pc (see the file comment)
+func runBurst(pc parCase, res string, fail func(sig, detail string), rep *emit.Report) {
+	deadline := time.Now().Add(time.Duration(pc.BudgetMs) * time.Millisecond)
+	tcs := hotspot.VerifTrafficControllersFor(res)
+	if len(tcs) != 1 {
+		fail("rule-not-in-force", fmt.Sprintf("%d controllers", len(tcs)))
+		return
+	}
+	cells := tcs[0].BoundMetric().ConcurrencyCounter
+	rounds := 0
+	var admitted int64
+	for round := 0; round < pc.Burst; round++ {
+		rounds++
+		vals := make([]int, pc.FreshPer)
+		for j := range vals {
+			vals[j] = pc.FreshBase + round*pc.FreshPer + j
+		}
+		var wg sync.WaitGroup
+		var mu sync.Mutex
+		var panics []string
+		start := make(chan struct{})
+		adm := make([]int64, pc.Goroutines)
+		for g := 0; g < pc.Goroutines; g++ {
+			wg.Add(1)
+			go func(g int) {
+				defer wg.Done()
+				defer func() {
+					if p := recover(); p != nil {
+						mu.Lock()
+						panics = append(panics, fmt.Sprint(p))
+						mu.Unlock()
+					}
+				}()
+				<-start
+				var live []*base.SentinelEntry
+				for _, v := range vals { // everybody starts on vals[0]
+					if e, b := sentinel.Entry(res, freshOpts(pc, v)...); b == nil {
+						live = append(live, e)
+						adm[g]++
+					}
+				}
+				for _, e := range live {
+					e.Exit()
+				}
+			}(g)
+		}
+		close(start)
+		wg.Wait()
+		if round%64 == 0 {
+			kit.Beat()
+		}
+		for g := range adm {
+			admitted += adm[g]
+		}
+		if len(panics) > 0 {
+			fail("entry-or-exit-panics", fmt.Sprintf("first-access round %d: %d goroutines panicked, first: %s", round, len(panics), panics[0]))
+			break
+		}
+		bad := false
+		for _, v := range vals {
+			if p, ok := cells.Get(v); ok && p != nil && *p != 0 {
+				bad = true
+				fail("counter-not-zero-after-all-entries-exited", fmt.Sprintf(
+					"first-access round %d: %d goroutines entered together with the fresh values %v (threshold %d) and have all exited; the cell of value %d reads %d",
+					round, pc.Goroutines, vals, pc.Thr, v, *p))
+			}
+		}
+		if !bad && round%256 == 0 { // sequential probe on this round's first value
+			v := vals[0]
+			var live []*base.SentinelEntry
+			for k := int64(0); k <= pc.Thr; k++ {
+				if e, b := sentinel.Entry(res, freshOpts(pc, v)...); b == nil {
+					live = append(live, e)
+				}
+			}
+			for _, e := range live {
+				e.Exit()
+			}
+			if int64(len(live)) != pc.Thr {
+				bad = true
+				fail("quiescent-admissions-differ-from-threshold", fmt.Sprintf(
+					"first-access round %d: with no entry in flight %d of %d sequential entries for value %d were admitted, threshold %d",
+					round, len(live), pc.Thr+1, v, pc.Thr))
+			}
+		}
+		if bad || time.Now().After(deadline) {
+			break
+		}
+	}
+	rep.Count("real_thread_first_access_rounds", rounds)
+	rep.Count("real_thread_entries_admitted", int(admitted))
 }
 
 func parOpts(pc parCase, v int) []sentinel.EntryOption {
@@ -63,7 +179,11 @@ func parOpts(pc parCase, v int) []sentinel.EntryOption {
 
 func runPar(pc parCase, rep *emit.Report) {
 	res := fmt.Sprintf("c06par-%d", pc.ID)
-	rule := kit.GoRule(kit.Rule{Metric: 0, Thr: pc.Thr, Key: pc.Key}, res, 0)
+	ru := kit.Rule{Metric: 0, Thr: pc.Thr, Key: pc.Key}
+	if pc.Burst > 0 {
+		ru.Cap = int64(pc.Burst*pc.FreshPer) + 1000 // every fresh value keeps its cell: the capacity is never exceeded
+	}
+	rule := kit.GoRule(ru, res, 0)
 	if _, err := hotspot.LoadRulesOfResource(res, []*hotspot.Rule{rule}); err != nil {
 		panic(err)
 	}
@@ -74,6 +194,10 @@ func runPar(pc parCase, rep *emit.Report) {
 		}
 		failCount[sig]++
 		rep.Fail(pc.ID, "C06_counter_exact", sig, detail, pc)
+	}
+	if pc.Burst > 0 {
+		runBurst(pc, res, fail, rep)
+		return
 	}
 	deadline := time.Now().Add(time.Duration(pc.BudgetMs) * time.Millisecond)
 	var admitted, refused int64
